@@ -168,3 +168,577 @@ pub fn s_hash(htlc_tag: u8, inv_tag: u8, two_parts: bool) -> WCfg {
     c.crash_lose_responses = true;
     c
 }
+
+// ---------------------------------------------------------------- more families
+
+fn add_htlc_full(c: &mut WCfg, name: &str, inv: usize, amount: u64, total: Option<u64>, tlv_amount: Option<Vec<u8>>) -> usize {
+    let t = c.add_htlc(name, inv, amount, total.unwrap_or(amount));
+    c.templates[t].spec.total_msat = total;
+    if let Some(a) = tlv_amount {
+        let bolt11 = c.invoices[inv].bolt11.clone();
+        c.templates[t].spec.metadata = Some(common::metadata(Some(bolt11.as_bytes()), Some(&a)));
+    }
+    t
+}
+
+fn set_amount(c: &mut WCfg, t: usize, amount: u64) {
+    if let Class::Trampoline { invoice, .. } = c.templates[t].class.clone() {
+        c.templates[t].class = Class::Trampoline { invoice, amount_msat: amount };
+    }
+}
+
+/// S-amt: amounts, declared totals, invoice amounts and policies near the limits (C03).
+pub fn s_amt() -> Vec<WCfg> {
+    let mut out = Vec::new();
+    let policies: [(u32, u32); 4] = [(0, 5000), (1000, 0), (0, 1), (u32::MAX, u32::MAX)];
+    for (pi, (base, ppm)) in policies.iter().enumerate() {
+        // fixed-amount invoice 1 000 000
+        let mk = |name: &str| {
+            let mut c = WCfg::base(&format!("S-amt/p{}/{}", pi, name));
+            c.fee_base = *base;
+            c.fee_ppm = *ppm;
+            c.max_crashes = 1;
+            c.max_parts = 1;
+            c
+        };
+        let amount = 1_000_000u64;
+        let need = {
+            let c = mk("x");
+            c.required(amount)
+        };
+        if need <= u64::MAX as u128 {
+            let need = need as u64;
+            let splits: Vec<(&str, Vec<u64>)> = vec![
+                ("exact1", vec![need]),
+                ("short1", vec![need - 1]),
+                ("short1+1", vec![need - 1, 1]),
+                ("split2", vec![600_000, need.saturating_sub(600_000).max(1)]),
+                ("dust3", vec![1, 1, need - 2]),
+                ("over+extra", vec![need + 1, 1]),
+                ("4parts", vec![need / 4, need / 4, need / 4, need - 3 * (need / 4)]),
+                ("huge", vec![2_000_000_000_000_000_000, 1]),
+            ];
+            for (sn, parts) in splits {
+                for (tn, tot) in [("exact", Some(need)), ("none", None), ("max", Some(u64::MAX))] {
+                    if pi > 0 && tn != "exact" {
+                        continue;
+                    }
+                    let mut c = mk(&format!("fixed/{}/total-{}", sn, tn));
+                    let inv = c.add_invoice(&InvoiceSpec::fixed(1, amount));
+                    for (i, a) in parts.iter().enumerate() {
+                        // with total None the declared total is forward_msat = the part itself
+                        let t = add_htlc_full(&mut c, &format!("h{}", i + 1), inv, *a, tot, None);
+                        let _ = t;
+                    }
+                    out.push(c);
+                }
+            }
+        }
+        // amountless invoice + declared amount
+        for (an, a) in [("1e6", 1_000_000u64), ("zero", 0), ("2^63", 1 << 63), ("max-5", u64::MAX - 5), ("1e6+1", 1_000_001)] {
+            let mut c = mk(&format!("amountless/{}", an));
+            let inv = c.add_invoice(&InvoiceSpec::amountless(3));
+            let need = c.required(a);
+            let tlv = common::tu64(a);
+            let funded: Vec<u64> = if need <= 2_000_000_000_000_000_000u128 {
+                let n = need as u64;
+                if n >= 2 {
+                    vec![n - 1, 1]
+                } else {
+                    vec![n.max(1)]
+                }
+            } else {
+                vec![2_000_000_000_000_000_000, 2_000_000_000_000_000_000]
+            };
+            let tot = if need <= u64::MAX as u128 { Some(need as u64) } else { Some(u64::MAX) };
+            for (i, amt) in funded.iter().enumerate() {
+                let t = add_htlc_full(&mut c, &format!("z{}", i + 1), inv, *amt, tot, Some(tlv.clone()));
+                set_amount(&mut c, t, a);
+            }
+            out.push(c);
+        }
+    }
+    out
+}
+
+/// S-cltv: expiries, heights and deltas (C04).
+pub fn s_cltv() -> Vec<WCfg> {
+    let mut out = Vec::new();
+    for (h0, safety, pdelta) in [(800_000u32, 34u16, 1008u16), (0, 34, 1008), (800_000, 0, 1008), (800_000, 1007, 1008), (800_000, 34, 40), (800_000, 34, 65535)] {
+        let mk = |name: &str| {
+            let mut c = WCfg::base(&format!("S-cltv/h{}-s{}-p{}/{}", h0, safety, pdelta, name));
+            c.start_height = h0;
+            c.safety_delta = safety;
+            c.policy_delta = pdelta;
+            c.heights = vec![h0 + 1, h0 + 10, h0 + 2000];
+            c.max_height_events = 2;
+            c.max_parts = 1;
+            c
+        };
+        let p = pdelta as u32;
+        // two parts with different expiries; the later-arriving one may be the lower
+        for (name, e1, e2) in [
+            ("hi-lo", h0 + p + 92, h0 + p),
+            ("lo-hi", h0 + p, h0 + p + 92),
+            ("tight", h0 + p, h0 + p + 1),
+            ("max", u32::MAX, h0 + p),
+        ] {
+            let mut c = mk(name);
+            let inv = c.add_invoice(&InvoiceSpec::fixed(1, 1_000_000));
+            let a1 = c.add_htlc("a1", inv, 600_000, 1_005_000);
+            let a2 = c.add_htlc("a2", inv, 405_000, 1_005_000);
+            c.templates[a1].spec.cltv_expiry = e1;
+            c.templates[a2].spec.cltv_expiry = e2;
+            out.push(c);
+        }
+        // an HTLC whose relative expiry is below the policy delta, at either position
+        for first in [true, false] {
+            let mut c = mk(if first { "lowexp-first" } else { "lowexp-second" });
+            let inv = c.add_invoice(&InvoiceSpec::fixed(1, 1_000_000));
+            let a1 = c.add_htlc("a1", inv, 600_000, 1_005_000);
+            let lo = c.add_htlc("lo", inv, 405_000, 1_005_000);
+            c.templates[lo].spec.cltv_expiry = h0 + p - 1;
+            if first {
+                c.templates.swap(a1, lo);
+            }
+            out.push(c);
+        }
+        // absurd relative expiries reported by the node
+        for rel in [0i64, -5] {
+            let mut c = mk(&format!("rel{}", rel));
+            let inv = c.add_invoice(&InvoiceSpec::fixed(1, 1_000_000));
+            let a = c.add_htlc("a", inv, 1_005_000, 1_005_000);
+            c.templates[a].spec.cltv_expiry = (h0 as i64 + rel).max(0) as u32;
+            c.templates[a].spec.cltv_expiry_relative = Some(rel);
+            out.push(c);
+        }
+        // single HTLC whose expiry is close: saturation at zero
+        for extra in [20u32, 34, 35] {
+            let mut c = mk(&format!("near{}", extra));
+            let inv = c.add_invoice(&InvoiceSpec::fixed(1, 1_000_000));
+            let a = c.add_htlc("a", inv, 1_005_000, 1_005_000);
+            // the node reports a generous relative expiry although the absolute one is near: (a node
+            // that is behind the chain tip the plugin already heard about)
+            c.templates[a].spec.cltv_expiry = h0 + extra;
+            c.templates[a].spec.cltv_expiry_relative = Some(p as i64);
+            out.push(c);
+        }
+    }
+    out
+}
+
+/// S-set: a rejecting HTLC at every position of a 2-3 part set (C07).
+pub fn s_set(select_dev: bool) -> Vec<WCfg> {
+    let mut out = Vec::new();
+    for rej in ["cf", "lo", "ut", "ca"] {
+        for parts in [2usize, 3] {
+            let mut c = WCfg::base(&format!("S-set/{}/{}parts", rej, parts));
+            c.max_parts = 1;
+            c.select_dev = select_dev;
+            c.max_crashes = 0;
+            let (inv, tlv): (usize, Option<Vec<u8>>) = if rej == "ca" {
+                (c.add_invoice(&InvoiceSpec::amountless(3)), Some(common::tu64(1_000_000)))
+            } else {
+                (c.add_invoice(&InvoiceSpec::fixed(1, 1_000_000)), None)
+            };
+            let amounts: Vec<u64> = if parts == 2 { vec![600_000, 405_000] } else { vec![300_000, 300_000, 405_000] };
+            for (i, a) in amounts.iter().enumerate() {
+                let t = add_htlc_full(&mut c, &format!("a{}", i + 1), inv, *a, Some(1_005_000), tlv.clone());
+                if rej == "ca" {
+                    set_amount(&mut c, t, 1_000_000);
+                }
+            }
+            match rej {
+                "cf" => {
+                    let inv2 = c.add_invoice(&InvoiceSpec::fixed(1, 1_000_000).with_description("another description"));
+                    add_htlc_full(&mut c, "cf", inv2, 405_000, Some(1_005_000), None);
+                }
+                "lo" => {
+                    let t = add_htlc_full(&mut c, "lo", inv, 405_000, Some(1_005_000), None);
+                    c.templates[t].spec.cltv_expiry = c.start_height + c.policy_delta as u32 - 1;
+                }
+                "ut" => {
+                    add_htlc_full(&mut c, "ut", inv, 405_000, Some(1_004_999), None);
+                }
+                "ca" => {
+                    let t = add_htlc_full(&mut c, "ca", inv, 405_000, Some(1_005_000), Some(common::tu64(999_999)));
+                    set_amount(&mut c, t, 999_999);
+                }
+                _ => unreachable!(),
+            }
+            out.push(c);
+        }
+    }
+    out
+}
+
+/// S-mpp: partial sets that never reach the total, over virtual time (C11).
+pub fn s_mpp() -> Vec<WCfg> {
+    let mut out = Vec::new();
+    for t_ms in [1_000u64, 60_000, 3_600_000] {
+        for parts in [1usize, 2, 3] {
+            let mut c = WCfg::base(&format!("S-mpp/T{}ms/{}parts", t_ms, parts));
+            c.mpp_timeout_ms = t_ms;
+            c.advance_menu_ms = vec![t_ms, t_ms - 1, 2, t_ms / 2];
+            c.max_advances = 4;
+            c.max_crashes = 1;
+            c.downtimes_ms = vec![0, t_ms / 2, 10 * t_ms];
+            let inv = c.add_invoice(&InvoiceSpec::fixed(1, 1_000_000));
+            for i in 0..parts {
+                c.add_htlc(&format!("p{}", i + 1), inv, 300_000, 1_005_000);
+            }
+            out.push(c);
+        }
+    }
+    // restart finds a stored history
+    for kind in ["free", "pending-nopart", "pending-failedpart", "pending-noattempt"] {
+        for age_s in [0u64, 30, 59, 60, 600] {
+            let mut c = base(&format!("S-mpp/hist-{}/age{}s", kind, age_s));
+            c.add_htlc("p1", 0, 300_000, 1_005_000);
+            c.add_htlc("p2", 0, 300_000, 1_005_000);
+            c.seed = seed_history(&c, kind, age_s);
+            c.advance_menu_ms = vec![60_000, 59_999, 2, 30_000];
+            c.max_advances = 4;
+            c.max_crashes = 1;
+            c.downtimes_ms = vec![0, 30_000];
+            out.push(c);
+        }
+    }
+    out
+}
+
+/// S-first: the first HTLC of a fresh payment declares too little / expires too early (C12, third sentence).
+pub fn s_first() -> Vec<WCfg> {
+    let mut out = Vec::new();
+    let policies: [(u32, u32, u16); 6] = [(0, 5000, 1008), (1000, 0, 1008), (0, 1, 40), (u32::MAX, u32::MAX, 65535), (1, 1_000_000, 144), (7, 13, 35)];
+    for (pi, (base, ppm, delta)) in policies.iter().enumerate() {
+        for kind in ["low-total", "low-expiry", "both"] {
+            let mut c = WCfg::base(&format!("S-first/p{}/{}", pi, kind));
+            c.fee_base = *base;
+            c.fee_ppm = *ppm;
+            c.policy_delta = *delta;
+            c.safety_delta = 34.min(*delta - 1);
+            let inv = c.add_invoice(&InvoiceSpec::fixed(1, 1_000_000));
+            let need = c.required(1_000_000).min(u64::MAX as u128) as u64;
+            let total = if kind == "low-expiry" { need } else { need - 1 };
+            let t = add_htlc_full(&mut c, "f", inv, 400_000, Some(total), None);
+            if kind != "low-total" {
+                c.templates[t].spec.cltv_expiry = c.start_height + *delta as u32 - 1;
+            } else {
+                c.templates[t].spec.cltv_expiry = c.start_height + *delta as u32;
+            }
+            // a second, well-formed part arrives later
+            add_htlc_full(&mut c, "g", inv, need.saturating_sub(400_000).max(1), Some(need), None);
+            let last = c.templates.len() - 1;
+            c.templates[last].spec.cltv_expiry = c.start_height + *delta as u32;
+            c.max_crashes = 0;
+            out.push(c);
+        }
+    }
+    out
+}
+
+/// S-many: up to 4 HTLCs per hash delivered before / while / after paying (C06).
+pub fn s_many() -> Vec<WCfg> {
+    let mut out = Vec::new();
+    {
+        let mut c = base("S-many/4htlc");
+        c.add_htlc("m1", 0, 600_000, 1_005_000);
+        c.add_htlc("m2", 0, 405_000, 1_005_000);
+        c.add_htlc("m3", 0, 1, 1_005_000);
+        c.add_htlc("m4", 0, 1, 1_005_000);
+        c.max_parts = 1;
+        c.write_faults = true;
+        out.push(c);
+    }
+    {
+        let mut c = base("S-many/over+3");
+        c.add_htlc("m1", 0, 1_005_000, 1_005_000);
+        c.add_htlc("m2", 0, 1, 1_005_000);
+        c.add_htlc("m3", 0, 1, 1_005_000);
+        c.add_htlc("m4", 0, 1, 1_005_000);
+        c.max_parts = 1;
+        c.write_faults = true;
+        out.push(c);
+    }
+    {
+        let mut c = base("S-many/reject+3");
+        let lo = c.add_htlc("lo", 0, 400_000, 1_005_000);
+        c.templates[lo].spec.cltv_expiry = c.start_height + 1007;
+        c.add_htlc("m2", 0, 605_000, 1_005_000);
+        c.add_htlc("m3", 0, 1, 1_005_000);
+        c.add_htlc("ut", 0, 1, 1_004_999);
+        c.max_parts = 1;
+        c.write_faults = true;
+        out.push(c);
+    }
+    out
+}
+
+// ---------------------------------------------------------------- C10 classification product
+
+fn pad_be(v: u64, len: usize) -> Option<Vec<u8>> {
+    let min = common::tu64(v);
+    if len > 8 {
+        // malformed on purpose: 9 bytes
+        let mut x = vec![0u8; len - 8];
+        x.extend_from_slice(&v.to_be_bytes());
+        return Some(x);
+    }
+    if min.len() > len {
+        return None;
+    }
+    let mut x = vec![0u8; len - min.len()];
+    x.extend_from_slice(&min);
+    Some(x)
+}
+
+/// Full product of invoice / amount-field / configuration shapes; each case is one world whose
+/// single HTLC is funded for the amount the reference classifier derives from the property text.
+pub fn s_classify(thorough: bool) -> Vec<WCfg> {
+    let mut out = Vec::new();
+    let lens: Vec<usize> = if thorough { (0..=9).collect() } else { vec![0, 1, 3, 8, 9] };
+    for inv_amount in [None, Some(1_000_000u64)] {
+        for sig in ["recovered", "explicit-ok", "explicit-bad"] {
+            for hint in [Hint::None, Hint::SelfLast, Hint::SelfNotLast, Hint::Other] {
+                for hash_equal in [true, false] {
+                    for allow in [true, false] {
+                        // amount field variants
+                        let mut fields: Vec<(String, Option<Vec<u8>>)> = vec![("absent".into(), None)];
+                        for l in &lens {
+                            for (vn, v) in [("agree", 1_000_000u64), ("plus1", 1_000_001), ("minus1", 999_999), ("zero", 0)] {
+                                if let Some(b) = pad_be(v, *l) {
+                                    fields.push((format!("len{}-{}", l, vn), Some(b)));
+                                }
+                            }
+                        }
+                        for (fname, field) in &fields {
+                            for damage in ["none", "no-invoice-record", "invalid-utf8", "truncated", "bad-checksum"] {
+                                if damage != "none" && (fname != "absent" || hint != Hint::None || !allow || !thorough && sig != "recovered") {
+                                    continue;
+                                }
+                                if !thorough && (hint == Hint::Other || (sig == "explicit-ok" && fname != "absent")) {
+                                    continue;
+                                }
+                                for pay_fails in [false, true] {
+                                    if pay_fails && (fname != "absent" || damage != "none" || !hash_equal) {
+                                        continue;
+                                    }
+                                    out.push(classify_case(inv_amount, sig, &hint, hash_equal, allow, fname, field.clone(), damage, pay_fails));
+                                }
+                            }
+                        }
+                    }
+                }
+            }
+        }
+    }
+    out
+}
+
+#[allow(clippy::too_many_arguments)]
+fn classify_case(
+    inv_amount: Option<u64>,
+    sig: &str,
+    hint: &Hint,
+    hash_equal: bool,
+    allow: bool,
+    fname: &str,
+    field: Option<Vec<u8>>,
+    damage: &str,
+    pay_fails: bool,
+) -> WCfg {
+    let mut c = WCfg::base(&format!(
+        "S-classify/amt={:?}/sig={}/hint={:?}/hash{}/allow={}/field={}/damage={}{}",
+        inv_amount,
+        sig,
+        hint,
+        if hash_equal { "=" } else { "!=" },
+        allow,
+        fname,
+        damage,
+        if pay_fails { "/payfails" } else { "" }
+    ));
+    c.allow_self_hints = allow;
+    c.max_crashes = 0;
+    c.max_parts = 1;
+    c.default_part_fails = pay_fails;
+    let mut spec = match inv_amount {
+        Some(a) => InvoiceSpec::fixed(1, a),
+        None => InvoiceSpec::amountless(1),
+    }
+    .with_hint(hint.clone());
+    spec.explicit_payee = match sig {
+        "recovered" => None,
+        "explicit-ok" => Some(true),
+        _ => Some(false),
+    };
+    let inv = c.add_invoice(&spec);
+    if sig == "explicit-bad" {
+        // nobody should ever notify / pay; payee irrelevant
+    }
+    let bolt11 = c.invoices[inv].bolt11.clone();
+    // reference classification, straight from the property text
+    let field_value: Option<Option<u64>> = field.as_ref().map(|b| {
+        if b.len() > 8 {
+            None
+        } else {
+            let mut v = 0u64;
+            for x in b {
+                v = (v << 8) | *x as u64;
+            }
+            Some(v)
+        }
+    });
+    let amount: Option<u64> = match (inv_amount, field_value) {
+        (Some(a), None) => Some(a),
+        (Some(a), Some(None)) => Some(a),
+        (Some(a), Some(Some(f))) => {
+            if a == f {
+                Some(a)
+            } else {
+                None
+            }
+        }
+        (None, Some(Some(f))) => Some(f),
+        (None, _) => None,
+    };
+    let invoice_bytes: Option<Vec<u8>> = match damage {
+        "none" => Some(bolt11.as_bytes().to_vec()),
+        "no-invoice-record" => None,
+        "invalid-utf8" => {
+            let mut b = bolt11.as_bytes().to_vec();
+            b[10] = 0xff;
+            b[11] = 0xfe;
+            Some(b)
+        }
+        "truncated" => Some(bolt11.as_bytes()[..bolt11.len() / 2].to_vec()),
+        "bad-checksum" => {
+            let mut b = bolt11.as_bytes().to_vec();
+            let n = b.len() - 1;
+            b[n] = if b[n] == b'q' { b'p' } else { b'q' };
+            Some(b)
+        }
+        _ => unreachable!(),
+    };
+    let class = if damage != "none" || sig == "explicit-bad" {
+        Class::NotTrampoline
+    } else if !hash_equal {
+        Class::HashMismatch { invoice: inv }
+    } else if amount.is_none() {
+        Class::NotTrampoline
+    } else if *hint == Hint::SelfLast && !allow {
+        Class::SelfHintRejected
+    } else {
+        Class::Trampoline {
+            invoice: inv,
+            amount_msat: amount.unwrap(),
+        }
+    };
+    let pay_amount = amount.unwrap_or(1_000_000);
+    let need = c.required(pay_amount).min(2_000_000_000_000_000_000) as u64;
+    let t = c.add_htlc("h", inv, need.max(1), need.max(1));
+    let meta_amount: Option<Vec<u8>> = field.clone();
+    let extra_when_no_invoice = if damage == "no-invoice-record" { Some(common::tu64(1_000_000)) } else { meta_amount };
+    c.templates[t].spec.metadata = Some(common::metadata(invoice_bytes.as_deref(), extra_when_no_invoice.as_deref()));
+    if !hash_equal {
+        c.templates[t].spec.payment_hash = AsRef::<[u8]>::as_ref(&common::hash_of(&common::preimage(9))).to_vec();
+        c.preimages.push((common::hash_hex(&common::preimage(9)), hex::encode(common::preimage(9))));
+    }
+    c.templates[t].class = class;
+    c
+}
+
+// ---------------------------------------------------------------- C13 pass-through requests
+
+/// Non-trampoline requests over a grid of payload shapes; each followed by a normal funded
+/// trampoline HTLC for the same hash whose behaviour must equal the baseline run.
+pub fn s_passthrough(thorough: bool) -> Vec<WCfg> {
+    let mut out = Vec::new();
+    let inv_spec = InvoiceSpec::fixed(1, 1_000_000);
+    let bolt11 = common::build_invoice(&inv_spec);
+    let prefixed = |inner: &[u8]| {
+        let mut v = Vec::new();
+        common::put_bigsize(&mut v, inner.len() as u64);
+        v.extend_from_slice(inner);
+        v
+    };
+    let with_inv = common::metadata(Some(bolt11.as_bytes()), None);
+    let with_amt = common::metadata(None, Some(&common::tu64(5)));
+    let other_rec = {
+        use crate::tlv::{SerializedTlvStream, TlvEntry, ToBytes};
+        SerializedTlvStream::to_bytes(SerializedTlvStream::from(vec![TlvEntry { typ: 5, value: vec![1, 2, 3] }]))
+    };
+    let garbage_inv = common::metadata(Some(b"lnbc1notaninvoice"), None);
+    // (name, record-16 value, usable as trampoline when final hop with forward_msat)
+    let metas: Vec<(&str, Option<Vec<u8>>, bool)> = vec![
+        ("absent", None, false),
+        ("empty", Some(vec![]), false),
+        ("random", Some(hex::decode("deadbeef00112233445566778899aabbccddeeff").unwrap()), false),
+        ("prefixed-invoice", Some(prefixed(&with_inv)), false),
+        ("prefixed-amount", Some(prefixed(&with_amt)), false),
+        ("prefixed-other", Some(prefixed(&other_rec)), false),
+        ("unprefixed-garbage-invoice", Some(garbage_inv), false),
+        ("unprefixed-amount-only", Some(with_amt.clone()), false),
+        ("unprefixed-valid-invoice", Some(with_inv.clone()), true),
+    ];
+    let value_lens: Vec<usize> = if thorough { vec![0, 1, 253, 65536] } else { vec![0, 1, 253] };
+    let other_types: [u64; 5] = [2, 4, 8, 18, 65537];
+    // baseline: the funded trampoline HTLC alone
+    let baseline = {
+        let mut c = base("S-pass/baseline");
+        c.add_htlc("a", 0, 1_005_000, 1_005_000);
+        c.max_crashes = 0;
+        let cfg = with_props(c, &[]);
+        let w: crate::engine_w::W = crate::explore::replay_labels(&cfg, &[], true).expect("baseline run");
+        w.request_labels()
+    };
+    for (mname, meta, usable) in &metas {
+        for forward in [true, false] {
+            for fwd_msat in [true, false] {
+                if *usable && !forward && fwd_msat {
+                    continue; // that is a real trampoline request
+                }
+                // subsets of the other record types
+                let nsub = 1u32 << other_types.len();
+                for mask in 0..nsub {
+                    let subset: Vec<u64> = (0..other_types.len()).filter(|i| mask & (1 << i) != 0).map(|i| other_types[i]).collect();
+                    if !thorough && !(mask == 0 || mask == nsub - 1 || mask == 0b11000 || mask == 0b00011 || mask == 0b01000) {
+                        continue;
+                    }
+                    for vl in &value_lens {
+                        if subset.is_empty() && *vl != 0 {
+                            continue;
+                        }
+                        if *vl > 253 && subset.len() > 1 {
+                            continue;
+                        }
+                        let mut c = base(&format!(
+                            "S-pass/{}/{}/{}/types{:?}/len{}",
+                            mname,
+                            if forward { "forward" } else { "final" },
+                            if fwd_msat { "fwdmsat" } else { "nofwdmsat" },
+                            subset,
+                            vl
+                        ));
+                        c.max_crashes = 0;
+                        let pt = c.add_htlc("pt", 0, 1_005_000, 1_005_000);
+                        {
+                            let s = &mut c.templates[pt].spec;
+                            s.forward_scid = forward;
+                            s.forward_msat = if fwd_msat { Some(1_005_000) } else { None };
+                            s.metadata = meta.clone();
+                            s.extra_records = subset.iter().map(|t| (*t, vec![0x5a; *vl])).collect();
+                        }
+                        c.templates[pt].class = Class::NotTrampoline;
+                        let a = c.add_htlc("a", 0, 1_005_000, 1_005_000);
+                        c.templates[a].after_answered = vec![pt];
+                        c.baseline_reqs = Some(baseline.clone());
+                        out.push(c);
+                    }
+                }
+            }
+        }
+    }
+    out
+}
